@@ -111,6 +111,7 @@ class DeterministicFiniteAutomaton(NondeterministicFiniteAutomaton):
         super().__init__(states, input_symbols, None, None, final_states)
         start_state = to_state(start_state)
         self._transition_function = transition_function or TransitionFunction()
+        self._register_transition_function()
         if start_state is not None:
             self._start_state = {start_state}
         else:
